@@ -14,6 +14,8 @@ def run(ctx):
     ecu.iter_mut(ctx)
     ecu.remove_all(ctx)
     ecu.timer_rules(ctx)
+    ctx.rule("R-WAKE-NONBLOCK", "add_timer / remove_timer from inside a timer callback cannot block the job thread on its own wake-up queue", floor=1)
+    ecu.wake_nonblocking(ctx)
     from rules import timing as TM
     ctx.rule("R-WAKEUP-MIN", "the timer pass keeps the earliest pending deadline as its next wake-up", floor=1)
     TM.wakeup_min(ctx, ctx.prog.func("ElectronicControlUnit", "_async_job_thread"), tag="ECU ")
